@@ -91,6 +91,8 @@ pub struct GenCfg {
     pub boundary_pct: u32,
     /// probability (0..=100) of a device that makes short transfers (legal for the storage traits)
     pub short_io_pct: u32,
+    /// probability (0..=100) that the history starts from a foreign population (imggen) instead of an empty volume
+    pub populate_pct: u32,
 }
 
 impl GenCfg {
@@ -124,6 +126,7 @@ impl GenCfg {
             gen_geom_pct: 20,
             boundary_pct: 5,
             short_io_pct: 12,
+            populate_pct: 0,
         }
     }
     pub fn fileio() -> GenCfg {
@@ -493,6 +496,7 @@ pub fn decode_vol(gc: &GenCfg, r: &RawVol) -> VolCfg {
         v.status0 = pick(&gc.status0, r.misc);
         v.access_date = pick(&gc.access_date, r.misc.rotate_left(4));
         v.short_io = short_io_of(gc, r);
+        v.populate = populate_of(gc, r);
         return v;
     }
     let tiny = ((r.tiny as u32 * 100) >> 16) < gc.tiny_free_pct;
@@ -507,7 +511,17 @@ pub fn decode_vol(gc: &GenCfg, r: &RawVol) -> VolCfg {
         v.fsinfo_unknown = true;
     }
     v.short_io = short_io_of(gc, r);
+    v.populate = populate_of(gc, r);
     v
+}
+
+fn populate_of(gc: &GenCfg, r: &RawVol) -> Option<crate::vol::Populate> {
+    let sel = r.preset.rotate_left(9) ^ r.tiny.rotate_left(3) ^ r.misc;
+    if ((sel as u32 * 100) >> 16) >= gc.populate_pct {
+        return None;
+    }
+    let mut m = crate::run::Mix::new(((r.preset as u64) << 48) | ((r.tiny as u64) << 32) | ((r.lo as u64) << 16) | r.hi as u64, r.misc as u64);
+    Some(crate::vol::Populate { entropy: (0..24).map(|_| m.next() as u32).collect(), freedoms: m.next() as u16, objects: (m.next() % 14) as u8 })
 }
 
 fn short_io_of(gc: &GenCfg, r: &RawVol) -> u8 {
@@ -529,7 +543,9 @@ pub fn case_strategy(gc: GenCfg) -> impl Strategy<Value = Case> {
         let vol = decode_vol(&gc, &rv);
         let nt = NameTable::new(&gc, &extra);
         let cs = vol.cluster_size();
-        let mut mem: Vec<String> = Vec::new();
+        // what a foreign population holds is known to the generator (a pure function of the volume configuration), so
+        // that lookups, removals and renames act on it
+        let mut mem: Vec<String> = if vol.populate.is_some() { crate::vol::populated_paths(&vol).into_iter().take(20).collect() } else { Vec::new() };
         let ops = raws.iter().flat_map(|r| decode_op(&gc, &nt, cs, r, &mut mem)).collect();
         Case { vol, ops }
     })
